@@ -87,6 +87,11 @@ class ReorgDriver(IndexDriver):
             if srv is None or srv.bp is None or not srv.bp.caught_up or srv.bp.state is None:
                 self.probe('admin_reorg.skipped')
                 return
+            if srv.bp.reorg_count is not None or getattr(self, 'admin_pending', 0):
+                # an earlier forced reorg is still queued or under way: its depth is not visible in the height
+                # yet, and the two together could exceed the reorg limit (outside the quantifier)
+                self.probe('admin_reorg.skipped_overlap')
+                return
             h = srv.bp.state.height
             cap = min(w.k['reorg_limit'] - (max(self.hmax, h) - h), h)
             n = min(op['n'], max(cap, 0))
@@ -111,6 +116,23 @@ class ReorgDriver(IndexDriver):
             if rid is None:
                 self.pending_bg -= 1
                 self.admin_pending -= 1
+        if op.get('at'):
+            self._bg(op['at'], go)
+        else:
+            go()
+
+    def op_admin_query(self, op):
+        """The operator looks a script up through the LocalRPC `query` command (with its own, small limit)."""
+        def go():
+            from sim.chaingen import SCRIPTS
+            if self.w.server is None:
+                return
+            c = self.admin()
+            if c is None:
+                return
+            script = bytes.fromhex(op['script']) if 'script' in op else SCRIPTS[op.get('s', 0) % len(SCRIPTS)]
+            c.send('query', [[script.hex()], op.get('limit', 1000)])
+            self.probe('admin.query')
         if op.get('at'):
             self._bg(op['at'], go)
         else:
@@ -246,7 +268,8 @@ class ReorgDriver(IndexDriver):
                 return
             ph = self.phase()
             if cond == 'any' or ph == cond or (cond == 'flush' and ph.startswith('flush')) or \
-                    (cond == 'advance' and ph == 'advance_nonconnecting'):
+                    (cond == 'advance' and ph == 'advance_nonconnecting') or \
+                    (cond == 'outage' and any(st != 'up' for st in w.faults.per_url.values())):
                 state['hits'] += 1
                 if state['hits'] > skip:
                     state['fired'] = True
@@ -639,6 +662,19 @@ class ReorgDriver(IndexDriver):
 
     def _on_server_end(self, w):
         self.drop_admin_requests()
+        # C03 / C15: a fork inside the property's quantifier "can be carried out" - the server must not stop on an
+        # exception of its own over it.  Exits that were asked for (SIGTERM), injected (disk full, out of memory)
+        # or are the expected refusal of a fork deeper than the limit are not judged.
+        ex = w.server_exits[-1] if w.server_exits else None
+        srv = getattr(w, 'last_server', None)
+        if ex and ex[0] == 'exc' and type(ex[1]).__name__ == 'DaemonError':
+            # e.g. the daemon's chain got shorter between two calls ("block height out of range"): the daemon's
+            # doing, an operator restarts the server (and the supervisor here does)
+            self.probe('server_exit.DaemonError')
+        elif ex and ex[0] == 'exc' and self.case.get('family') in ('reorg', 'undo') and \
+                not getattr(self, 'exit_expected', False) and not getattr(srv, 'sigterm_sent', False):
+            self.violate(self.ATTRIBUTE_TO, 'server.died', f'the server stopped on {ex[1]!r} while following the '
+                         f'daemon (height {w.daemon.height}) through chain events inside the reorg limit')
 
     def drop_admin_requests(self):
         # an admin request in flight dies with the server
@@ -756,7 +792,11 @@ class UndoDriver(ReorgDriver):
             return
         # depth L+1: refusal expected
         stored_before = self.stored_height()
-        r = w.run(lambda: w.caught_up(), 300.0)
+        self.exit_expected = True
+        try:
+            r = w.run(lambda: w.caught_up(), 300.0)
+        finally:
+            self.exit_expected = False
         if r == 'pred':
             self.violate('C15', 'undo.window_too_wide', f'a fork of depth {depth} = limit+1 right '
                          'after a restart was carried out: undo information older than the window '
@@ -894,9 +934,24 @@ class ShutdownFamily(ReorgFamily):
     def gen(self, rng, tier, prop):
         k, n0, plan = self._base(rng, tier, [6, 12, 25, 40])
         conds = ['advance', 'flush', 'flush', 'backup', 'fetch', 'idle', 'any', 'otherjob',
-                 'advance_nonconnecting']
+                 'advance_nonconnecting', 'outage']
         for _ in range(rng.randint(1, 3)):
             cond = rng.choice(conds)
+            if cond == 'outage':
+                # completed but unflushed blocks in memory, every daemon URL unreachable (or warming up / refusing)
+                # for a while - long enough for retries to back off and fail over -, shutdown during the outage
+                if rng.random() < 0.5:
+                    plan.append(dict(op='sync'))
+                    plan.append(dict(op='poker', on=False))
+                plan.append(dict(op='mine', n=rng.randint(2, 8), ntx=ntx_list(rng, 5), seed=rng.getrandbits(32)))
+                plan.append(dict(op='daemon_outage', state=rng.choice(['down', 'down', 'warming', 'refusing']),
+                                 which=rng.choice(['all', 'all', 0]), dt=rng.choice([15.0, 40.0, 90.0]),
+                                 at=round(rng.uniform(0.0, 3.0), 3)))
+                plan.append(dict(op='sigterm_when', cond='outage', skip=rng.choice([0, 3, 10, 30, 60, 100, 150]),
+                                 window=rng.choice([30.0, 120.0])))
+                plan.append(dict(op='stop_check'))
+                plan.append(dict(op='start'))
+                continue
             if cond in ('backup', 'idle', 'flush') and rng.random() < 0.7:
                 # caught up first, then something for the server to chew on
                 plan.append(dict(op='sync'))
